@@ -83,7 +83,12 @@ class EpollSelect(object):
     for (fd, mask) in modify.items():
       if fd in self.registered:
         if mask == 0:
-          self.epoll.unregister(fd)
+          try:
+            self.epoll.unregister(fd)
+          except (OSError, IOError, ValueError):
+            # It's been closed in the meantime (which has already removed
+            # it from the epoll set)
+            pass
           del self.registered[fd]
         else:
           self.epoll.modify(fd, mask)
